@@ -100,7 +100,8 @@ func runTree(o *opts) {
 	rmrf(filepath.Join(o.out, "w"))
 }
 
-// lastBufPair: the scenario that last got the pair of 64 KiB files (one directory scenario in 34 does)
+// lastBufPair: the scenario that got the pair of 64 KiB files (the first directory scenario of a run:
+// hashing them in Coq costs minutes and gigabytes, so one per run, in either tier)
 var lastBufPair = -100
 
 func oneTree(o *opts, r *rng, s *summary, i int, sc treeScenario, distinct map[string]bool) []*Transition {
@@ -130,7 +131,7 @@ func oneTree(o *opts, r *rng, s *summary, i int, sc treeScenario, distinct map[s
 		}
 	default:
 		art = genTree(r, 0, to, &pool, s)
-		if i >= 3 && i-lastBufPair >= 34 {
+		if i >= 3 && lastBufPair < 0 {
 			lastBufPair = i
 			// contents of exactly the hashing buffer's size, two different ones, next to an empty file:
 			// three different objects
